@@ -7,7 +7,7 @@ from . import cscen as CS
 
 FAIL_EVENTS = {"endfail", "readfail", "writefail", "mtimefail", "cut"}
 
-DEFAULTS = {"n": 0, "v": CS.NIL, "sv": CS.NIL, "r": 0, "f": 0, "o": [], "dry": False, "ok": False, "same": True,
+DEFAULTS = {"k": "", "n": 0, "v": CS.NIL, "sv": CS.NIL, "r": 0, "f": 0, "o": [], "dry": False, "ok": False, "same": True,
             "ops": [], "anc": [], "tpok": True}
 
 
@@ -17,7 +17,9 @@ def normalise_event(e):
     out.update(e)
     if out["e"] == "rend":
         out["v"] = e.get("v", [])
-    for k in ("missing", "k", "mode"):
+    if out["e"] != "undo":
+        out["k"] = ""
+    for k in ("missing", "mode"):
         out.pop(k, None)
     return out
 
@@ -195,7 +197,7 @@ def progress_trace(U, scn, notes, notes2, run_events, ok, clean, ngather):
         lab = (*scopes[n - 1], f"vfcscen.f{n}")
         per_label[lab] = per_label.get(lab, 0) + c
     exp = [[sid("run", lab), c] for lab, c in sorted(per_label.items(), key=repr)]
-    nops = len(starts) + sum(1 for e in run_events if e["e"] in ("read", "write"))
+    nops = len(starts) + len({(e["e"], e["n"]) for e in run_events if e["e"] in ("read", "write")})
     ncalls = sum(1 for k in scn["kind"] if k == "call")
     ev.append({"e": "summary", "sec": "", "sc": 0, "amt": 0, "clean": clean, "ok": ok, "exp": exp, "runcalls": nops + ngather,
                "stalecalls": ncalls + ngather, "members_equal": notes2 is None or notes2 == notes})
